@@ -236,11 +236,11 @@ for srcDirectory in inputMibs:
                                      'destination directory "%s": %s\r\n' % (os.path.join(srcDirectory, mibFile),
                                                                              dstDirectory, ex))
 
-                dstMibRevision = datetime.fromtimestamp(0)
+                dstMibRevision = None
 
             mibsRevisions[mibName] = dstMibRevision
 
-        if dstMibRevision >= srcMibRevision:
+        if dstMibRevision is not None and dstMibRevision >= srcMibRevision:
             if verboseFlag:
                 sys.stderr.write('Destination MIB "%s" has the same or newer revision as the '
                                  'source MIB "%s"\r\n' % (os.path.join(dstDirectory, mibName),
